@@ -76,6 +76,9 @@ Inductive case :=
 | CaseSigned (s : rrsig) (rrset : list rr) (got : N + list N) (lib : option (list N))
   (* signatureBinding vs the library's preflight (ran: Some accepted?; None: the library panicked) *)
 | CaseBinding (k : dnskey) (s : rrsig) (rrset : list rr) (got : N) (lib : option bool)
+  (* the same on inputs outside the property's domain (names that cannot come out of the
+     library's unpacker): recorded to show that the hypotheses of the binding theorem are needed *)
+| CaseProbe (k : dnskey) (s : rrsig) (rrset : list rr) (got : N) (lib : option bool)
   (* cryptoVerify.  libok: dns.RRSIG.Verify == nil; refok: verdict of the independent reference
      (library, or math/big for exponents the library cannot load); eqdom: the input is outside every
      documented deliberate difference, so the verdicts must be equal *)
@@ -125,14 +128,17 @@ Definition check_case (c : case) : bool :=
   | CaseSigned s rrset got _ => sum_eqb (signed_data s rrset) got
   | CaseBinding k s rrset got lib =>
       (signature_binding k s rrset =? got) && opt_eqb Bool.eqb (lib_preflight k s rrset) lib
+  | CaseProbe k s rrset got lib =>
+      (signature_binding k s rrset =? got) && opt_eqb Bool.eqb (lib_preflight k s rrset) lib
   | CaseVerify k s rrset o got _ _ _ =>
       let m := crypto_verify (orc_H o) (orc_ECP o) (orc_ECV o) (orc_EDV o) orc_LIBV k s rrset in
       if verify_signature_supported (k_alg k) then m =? got else negb (got =? 0)
   | CaseDSMatch k dt want o got _ => Bool.eqb (ds_digest_matches (orc_H o) k dt want) got
   | CaseVerifyDS keymap dss t got _ => bb_eqb (verify_ds (tbl_H t) keymap dss) got
   | CaseOneSig keys set s valid_now t ecp ev got _ _ =>
-      Bool.eqb (verify_one_sig (tbl_H t) (tbl_ECP ecp) (fun _ pub _ sg => tbl_EV ev pub sg)
-                               (fun pub _ sg => tbl_EV ev pub sg) orc_LIBV keys set s valid_now) got
+      Bool.eqb (verify_one_sig (tbl_H t) (tbl_ECP ecp) (fun _ pub dg sg => negb (is_nil dg) && tbl_EV ev pub sg)
+                               (fun pub msg sg => existsb (fun o => list_eqb msg (o_msg o)) t && tbl_EV ev pub sg)
+                               orc_LIBV keys set s valid_now) got
   end.
 
 (* ------------------------------------------------------------------ spec *)
@@ -162,8 +168,9 @@ Definition spec_digestinfo (alg : N) : list N :=
 Definition spec_rsa_verify (n e alg : N) (hashed sg : list N) : bool :=
   let k := (N.size n + 7) / 8 in
   let t := spec_digestinfo alg ++ hashed in
-  (len sg =? k) && (os2ip sg <? n) && (len t + 11 <=? k) &&
-  (powmod (os2ip sg) e n =? os2ip ([0; 1] ++ repeat 255 (N.to_nat (k - len t - 3)) ++ [0] ++ t)).
+  if (len sg =? k) && (os2ip sg <? n) && (len t + 11 <=? k)
+  then powmod (os2ip sg) e n =? os2ip ([0; 1] ++ repeat 255 (N.to_nat (k - len t - 3)) ++ [0] ++ t)
+  else false.
 
 (* the observed signed data parsed back: RRSIG RDATA prefix, signer name, then
    records that all carry the signature's original TTL, one lower-case owner,
@@ -271,10 +278,13 @@ Definition spec_case (c : case) : bool :=
   | CaseBinding _ _ _ got lib =>
       (* never more permissive than the library's preflight *)
       implb' (got =? 0) (match lib with Some true => true | _ => false end)
+  | CaseProbe _ _ _ _ _ => true
   | CaseVerify _ _ _ _ got libok refok eqdom =>
       implb' (got =? 0) refok && implb' eqdom (Bool.eqb (got =? 0) libok)
-  | CaseDSMatch _ dt _ _ got lib =>
-      implb' got lib && implb' (lib && negb (dt =? 5)) got
+  | CaseDSMatch k dt _ _ got lib =>
+      (* never accepts what ToDS does not produce; refuses what it produces only for digest type 5
+         (SHA-512 in the library, GOST by IANA) and for a DNSKEY without key material *)
+      implb' got lib && implb' (lib && negb (dt =? 5) && negb (is_nil (fst (b64_decode (k_pub k))))) got
   | CaseVerifyDS _ _ _ got ref => bb_eqb got ref
   | CaseOneSig _ _ _ _ _ _ _ got ref eqdom =>
       implb' got ref && implb' eqdom (Bool.eqb got ref)
